@@ -45,11 +45,12 @@ static Pools make_pools(uint64_t tps) {
     f.query_questions = std::vector<GenericResourceRecord>{rr(nameA, 28, 1)};
     f.query_answers = std::vector<GenericResourceRecord>{rr(nameA, 1, 1, 300u, std::string("\x01\x02\x03\x04", 4))};
     f.query_authority = std::vector<GenericResourceRecord>{rr(nameB, 2, 1, 0u), rr(nameB, 2, 1, boost::none, std::string("rd"))};
-    f.query_additional = std::vector<GenericResourceRecord>{rr(nameB, 41, 4096)};
+    // lists that mix records with and without the optional members, in both orders (a member set on one record must not leak into the next)
+    f.query_additional = std::vector<GenericResourceRecord>{rr(nameB, 41, 4096, 5u, std::string("rdX")), rr(nameA, 1, 1)};
     f.response_questions = std::vector<GenericResourceRecord>{rr(nameA, 28, 1), rr(nameB, 255, 255)};
     f.response_answers = std::vector<GenericResourceRecord>{rr(nameA, 28, 1, 0xffffffffu, ip6), rr(nameA, 28, 1, 0xffffffffu, ip6)};
     f.response_authority = std::vector<GenericResourceRecord>{rr(nameB, 6, 1, 3600u, std::string(300, 'x'))};
-    f.response_additional = std::vector<GenericResourceRecord>{};
+    f.response_additional = std::vector<GenericResourceRecord>{rr(nameA, 1, 1, 7u, std::string("r1")), rr(nameB, 2, 2), rr(nameA, 3, 3, 9u), rr(nameB, 4, 4, boost::none, std::string("r4")), rr(nameB, 5, 5)};
     f.asn = std::string("64512"); f.country_code = std::string("CZ"); f.round_trip_time = 12345;
     p.qr.push_back(f);
     GenericQueryResponse r1; r1.client_port = 1; p.qr.push_back(r1);                              // R1 minimal
@@ -59,6 +60,7 @@ static Pools make_pools(uint64_t tps) {
     GenericQueryResponse r4; r4.ts = T(1500000000, 1); r4.client_ip = ip4b; r4.response_delay = INT64_MIN; r4.query_size = (std::size_t)UINT64_MAX; p.qr.push_back(r4); // R4 earlier
     GenericQueryResponse r5; p.qr.push_back(r5);                                                  // R5 no field at all: never storable
     GenericQueryResponse r6; r6.client_ip = ip4b; r6.query_name = nameB; r6.server_ip = ip4a; p.qr.push_back(r6);      // R6 only fields that hint sets 2/3 drop
+    GenericQueryResponse r7; r7.server_port = 5353; p.qr.push_back(r7);                           // R7 only a signature member: storable only through the signature table
     GenericAddressEventCount a0; a0.ae_type = AddressEventTypeValues::tcp_reset; a0.ip_address = ip4a; p.aec.push_back(a0);
     GenericAddressEventCount a1; a1.ae_type = AddressEventTypeValues::icmp_dest_unreachable; a1.ae_code = 3; a1.ae_transport_flags = (QueryResponseTransportFlagsMask)1; a1.ip_address = ip6; p.aec.push_back(a1);
     GenericAddressEventCount a2 = a0; a2.ae_code = 0; p.aec.push_back(a2);
